@@ -476,6 +476,9 @@ def subchecks(tier, seed):
                         bounds={"alphabet": SIGMA_Q, "max_tokens": 3, "observed": "operator stack symbols + output queue length after every token"}))
         subs.append(Sub("sentences", drv_sentences, {"k": 2, "kmin": 0, "leaves": ["a", "b", "c", "1", "0"], "powers": ["2"]},
                         shard_depth=3, bounds={"max_binary_operators": 2, "leaves": ["a", "b", "c", "1", "0"]}))
+        subs.append(Sub("sentences-quoted-colon-names", drv_sentences, {"k": 2, "kmin": 1, "leaves": ["a", "b", "`a:b`", "`b:a`"], "powers": ["2"]},
+                        shard_depth=3, bounds={"max_binary_operators": 2, "leaves": ["a", "b", "`a:b`", "`b:a`"],
+                                               "note": "a quoted name containing ':' next to the interaction it looks like"}))
         subs.append(Sub("sentences-3", drv_sentences, {"k": 3, "kmin": 3, "leaves": ["a", "b"], "powers": ["2"]},
                         shard_depth=4, bounds={"binary_operators": 3, "leaves": ["a", "b"]}))
         subs.append(Sub("signs", drv_signs, {"R": 3}, shard_depth=2, bounds={"max_run": 3, "bases": len(SIGN_BASES)}))
@@ -495,6 +498,8 @@ def subchecks(tier, seed):
                         bounds={"alphabet": SIGMA_Q, "tokens": 5}))
         subs.append(Sub("sentences", drv_sentences, {"k": 3, "kmin": 0, "leaves": ["a", "b", "c", "1", "0"], "powers": ["2", "3"]},
                         shard_depth=4, bounds={"max_binary_operators": 3, "leaves": ["a", "b", "c", "1", "0"]}))
+        subs.append(Sub("sentences-quoted-colon-names", drv_sentences, {"k": 3, "kmin": 1, "leaves": ["a", "b", "`a:b`", "`b:a`"], "powers": ["2"]},
+                        shard_depth=4, bounds={"max_binary_operators": 3, "leaves": ["a", "b", "`a:b`", "`b:a`"]}))
         subs.append(Sub("sentences-4", drv_sentences, {"k": 4, "kmin": 4, "leaves": ["a", "b"], "powers": ["2"]},
                         shard_depth=5, bounds={"binary_operators": 4, "leaves": ["a", "b"]}))
         subs.append(Sub("signs", drv_signs, {"R": 4}, shard_depth=2, bounds={"max_run": 4, "bases": len(SIGN_BASES)}))
